@@ -192,6 +192,19 @@ func visitInstr(fr *frame, instr ssa.Instruction) continuation {
 					}
 				} else if isSym(x) && asInt64(y) == 0 {
 					panic(targetRuntimeError("integer divide by zero"))
+				} else if sx, ok := x.(sym); ok {
+					// division by a constant: defined by multiplication (x = c*q + r),
+					// which bit-blasts far cheaper than a divider circuit
+					if c := asInt64(y); c >= 2 || c <= -2 {
+						_, signed, _ := intInfo(instr.X.Type())
+						q, r := i.divByConst(sx.t, c, signed)
+						if instr.Op == token.QUO {
+							fr.env[instr] = valueOfTerm(q, instr.X.Type())
+						} else {
+							fr.env[instr] = valueOfTerm(r, instr.X.Type())
+						}
+						break
+					}
 				}
 			}
 		}
